@@ -827,3 +827,33 @@ CHECKS["C05"]["note"] = (
     "when their structural fingerprint equals the live tree's; the first difference per state and every replay use "
     'real parses only. Component redeclaration inside a modification is excluded (the parser raises).'
 )
+
+CHECKS["C01"]["technique"] = (
+    'explicit-state BFS over cache-event histories on a real cache folder (deviation-bounded), results edited in '
+    'place by the caller + every prefix of a stored pickle'
+)
+
+CHECKS["C01"]["text"] = (
+    "Every history of length <= 4 with <= 2 deviations (quick; thorough: 'wide' <= 4 with <= 3 over everything, "
+    "'deep' <= 6 with <= 3 without the near-duplicates) over parse(OK1/OK2/BAD, expiration, always_update), parse "
+    'of 8 near-duplicate texts (a base text with a multi-line / blank- / tab- / case- / accent-carrying string '
+    'literal and its image under LF->CRLF, trailing-blank stripping, blank-run collapsing, tab expansion, '
+    'lower-casing, accent change, NFD: different texts, different trees; all 56 ordered pairs), module reload, '
+    'version change (incl. .dirty), clock jumps, entry faults (empty, truncated, garbage, class gone, other-version '
+    'entry holding a different tree), layout faults and file faults is executed on the real parse() with the clock '
+    'and version behind seams; every returned tree is compared node for node (types included) with the uncached '
+    'parse of the same text, None iff syntax error; then the caller edits the returned tree in place (every '
+    'reachable container and pymoca object) and keeps it, so a later result that shares an object with an earlier '
+    'one differs; no row for the broken text, no None stored, .dirty leaves the folder untouched. Plus every 16th '
+    '(quick) / every (thorough) prefix of the stored pickle, followed by two parses.'
+)
+
+CHECKS["C01"]["note"] = (
+    'Deviation = fault, version change, clock jump or parse of a near-duplicate. Abstract state = database '
+    'abstraction (layouts, metadata keys, rows with stored key, version, data hash, last_hit bucketed by the cut '
+    'points parse() compares with) + initialised flag + version + results handed out per text in this process '
+    '(0..2, wide search 0..3). One process and one folder (sharing is C02); process state is assumed to live in '
+    'pymoca.parser (module reload = new process); near-duplicates with equal trees (outer blank lines, BOM, '
+    'comments) cannot violate the statement and are left out; pickles that load to a foreign object under the '
+    '*current* version are outside the alphabet.'
+)
